@@ -134,6 +134,16 @@ package keeper
 //@ ensures (addrstr(sender) == k.authority || old(curGroup(Store_bandtss)) == 0) ==> Bank == old(Bank)
 //@ loop 0: invariant forall j :: 0 <= j && j < #i ==> totalFee[j].Amount <= ext("Coins.AmountOf", feeLimit, totalFee[j].Denom)
 
+// C08 (route fee of a TSS tunnel): the fee QUOTED for one signing is exactly the fee createSigningRequest CHARGES
+// - fee_per_signer x threshold of the current group, nothing when there is no current group. The tunnel module checks
+// the fee payer's balance against the quote, records it as the packet's route fee and passes it as the fee limit.
+//@ func (k Keeper) GetSigningFee
+// (signFee converts the threshold through int64 as createSigningRequest does; the two agree for thresholds below 2^63,
+// and a threshold is at most the group size, which MaxGroupSize bounds)
+//@ ensures err == nil && curGroup(Store_bandtss) != 0 ==> result == ext("Coins.MulInt", bParams(Store_bandtss).FeePerSigner, types.tssGroup(Other, curGroup(Store_bandtss)).Threshold)
+//@ ensures err == nil && curGroup(Store_bandtss) != 0 && types.tssGroup(Other, curGroup(Store_bandtss)).Threshold <= MaxInt64 ==> result == signFee(Store_bandtss, Other)
+//@ ensures curGroup(Store_bandtss) == 0 ==> err == nil && len(result) == 0
+
 // ---- C14: block reward for signing members ------------------------------------------------------------
 // Only members of the current group that are active AND have a queued nonce (Tail > Head) are paid, each the
 // same amount, from the distribution module account. CONSERVATION: on success, what left the distribution
